@@ -248,6 +248,15 @@ def snapshot_selection(fw):
     return {"prev": int(fw._best_index), "own_merits": own_m, "own_viols": own_r}
 
 
+def _sel_data(fw):
+    """Data for the signature of KF-C18-1: what the last selection saw, and what the solver's merit function gives
+    now (the two differ when the set has changed since - then the centre is stale, which is another matter)."""
+    sel = dict(getattr(fw, "_vf_sel", None) or {"prev": None, "own_merits": [], "own_viols": []})
+    cur = snapshot_selection(fw)
+    sel["cur_merits"] = cur["own_merits"] if cur else []
+    return sel
+
+
 def centre_clause(fw, out, once=None):
     m = fw.models
     pb = fw._pb
@@ -277,7 +286,9 @@ def centre_clause(fw, out, once=None):
     if mb > mmin + band:
         out.fail("C18.centre", "the centre (index %d, merit %.17g) is not a least-merit interpolation point: "
                  "index %d has merit %.17g (penalty %.3g, band %.3g)"
-                 % (b, mb, int(np.argmin(merits)), mmin, pen, band))
+                 % (b, mb, int(np.argmin(merits)), mmin, pen, band),
+                 centre=b, n=int(n), npt=int(npt),
+                 **_sel_data(fw))
         return
     # ties within rounding go to the smaller violation.  "Within rounding" is the solver's own band
     # 10*eps*max(n, npt)*max(|least merit|, 1); only points clearly inside it (half the band, minus the
@@ -290,7 +301,7 @@ def centre_clause(fw, out, once=None):
                      "%.17g, band %.3g) and a smaller violation than the centre %d (%.6g < %.6g)"
                      % (k, merits[k], mmin, mb, tol, b, viols[k], viols[b]),
                      centre=b, n=int(n), npt=int(npt),
-                     **(getattr(fw, "_vf_sel", None) or {"prev": None, "own_merits": [], "own_viols": []}))
+                     **_sel_data(fw))
             break
     if any(k != b and merits[k] - mmin <= 0.5 * tol - slack and viols[k] > viols[b] + 1e-9 * max(1.0, viols[b])
            for k in range(npt)):
@@ -531,9 +542,15 @@ def sig_sequential_rule(spec, fail):
     (m_k < m_best + tol and r_k < r_best)`, scanned in index order from the previous centre - selects from the
     solver's own merit values.  Anything else (another tie direction, a stale centre) is not this finding."""
     d = fail.data or {}
-    if not fail.clause.startswith("C18.centre_tie") or d.get("prev") is None or len(d["own_merits"]) != d["npt"]:
+    # (also the plain "C18.centre" clause: a chain of pairwise decisions can leave the centre a few bands above
+    # the least merit)
+    if fail.clause not in ("C18.centre_tie", "C18.centre") or d.get("prev") is None \
+            or len(d["own_merits"]) != d["npt"]:
         return False
     M, R, n, npt = d["own_merits"], d["own_viols"], d["n"], d["npt"]
+    cur = d.get("cur_merits") or []
+    if len(cur) != npt or not np.allclose(np.array(M, float), np.array(cur, float), rtol=1e-12, atol=0.0):
+        return False  # the interpolation set has changed since the last selection: a stale centre, not this finding
 
     def band(mv):
         return 10.0 * S.EPS * max(n, npt) * max(abs(mv), 1.0)
